@@ -16,11 +16,19 @@ def stepLine (c : Cur) (line : String) : Cur × String :=
     | some (dag, present) => ({ dag := dag, st := { present := present } }, "ok")
     | none => (c, "bad-op")
   | ["q"] => (c, dumpLine c.dag c.st)
+  | "nested" :: ts =>
+    let (ta, tb) := splitAt2 ts
+    match parseOp ta, parseOp tb with
+    | some opA, some opB =>
+      let r := stepNested c.dag c.st opA opB
+      let tb := match r.resB with | some x => callTok c.st opB x | none => "none"
+      ({ c with st := r.st }, s!"A={resTok r.resA} B={tb} {writesTok r.logB} {writesTok r.logA}")
+    | _, _ => (c, "bad-op")
   | ts =>
     match parseOp ts with
     | some op =>
       let r := step c.dag c.st op
-      ({ c with st := r.1 }, s!"{resTok r.2} {writesTok r.1.log}")
+      ({ c with st := r.1 }, s!"{callTok c.st op r.2} {writesTok r.1.log}")
     | none => (c, "bad-op")
 
 partial def loop (h : IO.FS.Stream) (out : IO.FS.Stream) (c : Cur) : IO Unit := do
